@@ -604,6 +604,7 @@ func c19ParseHalf(e *env, nBundles int) {
 		}
 	}
 	res := c19RunParses(e, cases)
+	c19ParseModelTie(e, faults)
 	for i, f := range faults {
 		r := res[i]
 		if f.Kind == "valid" {
@@ -648,6 +649,41 @@ func c19ParseHalf(e *env, nBundles int) {
 			e.res.Fail(hx.Violation{Kind: "oracle", What: "parse error position (" + f.Class + "/" + f.Sub + "): " + what, Case: f, Expected: exp,
 				Observed: fmt.Sprintf("class=%s file=%q line=%d col=%d text=%q", r.Class, r.File, r.Line, r.Col, firstN(r.Text, 200))}, c19ParseKnown(f, r))
 		}
+	}
+}
+
+// c19ParseModelTie runs a sample of the faulted files through the tie of the parser model
+// (parsetie.go: real scanner items + Model/Parser.v in the model runner): the position of the
+// token the model's errorf/unexpected takes must give the line and column the real error carries.
+func c19ParseModelTie(e *env, faults []c19Fault) {
+	if e.m == nil {
+		return
+	}
+	var cases []ptCase
+	for i, f := range faults {
+		if f.Kind != "parse" || len(f.Bundle) > 0 || i%4 != 0 {
+			continue
+		}
+		cases = append(cases, ptCase{Kind: "file", Text: f.Text, Fam: "c19:" + f.Class + ":" + f.Sub})
+	}
+	res := ptRun(e, cases, 2000, 2*time.Second)
+	var reqs []string
+	var idx []int
+	for i := range cases {
+		r := &res[i]
+		if r.Class == "hang" || r.Class == "crash" || r.Class == "panic" {
+			e.res.Histogram["parse-tie:"+r.Class+" (C05's)"]++
+			continue
+		}
+		if req := ptModelReq(cases[i], r, false); req != "" {
+			reqs = append(reqs, req)
+			idx = append(idx, i)
+		}
+	}
+	for k, resp := range e.m.Batch(reqs) {
+		i := idx[k]
+		e.res.Count("tie\x00"+cases[i].Text, true, "parse-tie:model-vs-implementation")
+		ptCompare(e, cases[i], &res[i], ptDecode(resp))
 	}
 }
 
